@@ -188,7 +188,13 @@ def plan(tier, seed):
                                              G.rule([G.scenario(["pass"], ts) for ts in subsets[:8]], ["t2"])], ["t1"], bg=["pass"])],
                      "family": "truth"}
         cfgs = [G.cfg(expr=e) for e in G.EXPRS] + [G.cfg(expr=e, show_skipped=False, dry=(i % 2 == 0)) for i, e in enumerate(G.EXPRS)]
-        return [(with_o2(own), cfgs, [[0, 0]]), (with_o2(inherited), cfgs, [[0, 0]])]
+        cfgs += [G.cfg(expr=e, wip=True) for e in G.EXPRS]          # --wip: the whole expression AND @wip
+        # several failing steps in one scenario under continue_after_failed_step (class-wide and set by a hook)
+        multi = {"features": [G.feature([G.scenario(["fail", "pass", "error", "pass", "fail"]), G.scenario(["pass", "fail"]),
+                                         G.scenario(["fail", "skip", "pass", "pass"]), G.scenario(["error", "pass", "skip", "undefined", "pass"])])],
+                 "family": "truth"}
+        return [(with_o2(own), cfgs, [[0, 0]]), (with_o2(inherited), cfgs, [[0, 0]]),
+                (with_o2(multi), [G.cfg(cont=True), G.cfg(cont=True, cont_by_hook=True), G.cfg(cont=True, capture=(True, False, True))], [[0, 0]])]
 
     def exception_class_programs():
         """every exception class the driver rotates through for `error` and `pending`, in @wip and ordinary scenarios
@@ -363,7 +369,7 @@ def shared(chk, part="core"):
     """Run (or load) the shared stage for this tree / tier / seed.  Returns a dict:
        n_runs, tlc: [{module,cfg,distinct,generated,wall,coverage}], verdicts: {clause: [ {key, ...} ]},
        divergences, samples, design_violations"""
-    key = tree_key({"tier": chk.tier, "seed": chk.seed, "part": part, "v": 33})
+    key = tree_key({"tier": chk.tier, "seed": chk.seed, "part": part, "v": 35})
     os.makedirs(CACHE, exist_ok=True)
     # one entry per (part, tier, repository location): runs against a mutated copy must not evict /repo's entry
     prefix = "%s-%s-%s-" % (part, chk.tier, hashlib.sha256(REPO.encode()).hexdigest()[:8])
